@@ -1040,6 +1040,7 @@ pub fn run_sm(c: &Value) -> RunResult {
             } else {
                 "panic".to_string()
             };
+            let msg = format!("{} at {}", msg, crate::util::LAST_PANIC_LOC.lock().unwrap());
             (false, Some(msg))
         }
     };
